@@ -601,6 +601,10 @@ func (t *tokenAwareHostPolicy) Pick(qry ExecutableQuery) NextHost {
 	var replicas []*HostInfo
 	if ht == nil {
 		host, _ := meta.tokenRing.GetHostForToken(token)
+		if host == nil {
+			// the ring holds no token: no routing information
+			return t.fallback.Pick(qry)
+		}
 		replicas = []*HostInfo{host}
 	} else {
 		replicas = ht.hosts
